@@ -225,6 +225,8 @@ func toI64(x any) int64 {
 func CopyBound(k int)          {}
 func ConcBound(k int)          {}
 func CrcBound(k int)           {}
+func MaxPreempt(k int)         {}
+func FixRandom()               {}
 func Unwind(k int)             {}
 func MaxPaths(k int)           {}
 func Tier() string             { return tier }
